@@ -301,6 +301,13 @@ def r12_unsubscribe_ends_the_subscription_before_it_answers(ctx):
     R.floor("C04.R12", n, 1, "removals in the unsubscribe handler")
 
 
+def r13_writer_ends_when_its_connection_does(ctx):
+    """(= C10.R3) the writer task watches the stop signal - also when the sender is merely dropped (the low-level
+    connection future was dropped): its end closes the queue, which is what makes the sinks report closed"""
+    from . import c10
+    c10.r3_writer_stops_last(ctx)
+
+
 def r6_single_writer(ctx):
     F, R = ctx.F, ctx.R
     # the per-connection receiver created next to the MethodSink is moved into exactly one place: send_task (via BackgroundTaskParams)
@@ -484,7 +491,7 @@ def rjson_notifications_are_serialised_by_serde(ctx):
     c15.r6_no_handmade_json(ctx)
 
 
-LIB_RULES = [rjson_notifications_are_serialised_by_serde, rstop_server_stop_is_reported_after_the_drain, r1_typestate, r2_closed_check_first, r3_identity, r4_close_gating, r5_unsubscribe_key, r5b_unsubscribe_key_not_rebuilt, r12_unsubscribe_ends_the_subscription_before_it_answers, r6_single_writer, r7_envelope_is_fresh, r8_sibling_registrars, r9_low_level_connection_is_driven_by_its_future, r10_lossy_sends_are_the_api_only, rflag_success_flag_matches_json, r11_returned_messages_are_complete]
+LIB_RULES = [rjson_notifications_are_serialised_by_serde, rstop_server_stop_is_reported_after_the_drain, r1_typestate, r2_closed_check_first, r3_identity, r4_close_gating, r5_unsubscribe_key, r5b_unsubscribe_key_not_rebuilt, r12_unsubscribe_ends_the_subscription_before_it_answers, r13_writer_ends_when_its_connection_does, r6_single_writer, r7_envelope_is_fresh, r8_sibling_registrars, r9_low_level_connection_is_driven_by_its_future, r10_lossy_sends_are_the_api_only, rflag_success_flag_matches_json, r11_returned_messages_are_complete]
 CONFIGS_QUICK = ["libs-all", "corpus"]
 CONFIGS_THOROUGH = ["libs-all", "facade-full", "corpus"]
 
